@@ -42,6 +42,8 @@ Proof.
   change (list_snaps []) with (@nil snapshot). cbn [find].
   unfold rec_committed. rewrite Hrc.
   match goal with |- context [scan_configs P ?S ?F ?N] => destruct (scan_configs P S F N) as [s5|] eqn:ES end; [|discriminate].
+  fold (rec_fin s5). rewrite (rec_fin_commit0 s5)
+    by (rewrite (proj2 (proj2 (proj2 (proj2 (proj2 (proj2 (proj2 (proj2 (proj2 (scan_configs_durable _ _ _ _ _ ES)))))))))); reflexivity).
   intros H; inversion H; subst s5 tr. clear H.
   pose proof (scan_configs_durable _ _ _ _ _ ES) as (_ & _ & A5 & _ & _ & _ & _ & _ & _ & C5).
   split; [rewrite C5; reflexivity|]. split; [rewrite A5; reflexivity|].
@@ -64,7 +66,7 @@ Proof.
   destruct (rec_snapshot _) as [[s3 tr3]|] eqn:E3; [|discriminate].
   destruct (rec_committed P s3) as [| | |s4 tr4] eqn:E4; try discriminate.
   match type of ER with context [scan_configs P ?S ?F ?N] => destruct (scan_configs P S F N) as [s5|] eqn:ES end; [|discriminate].
-  inversion ER; subst s5. apply scan_configs_durable in ES. destruct ES as ((_ & _ & _ & DL & _) & _).
+  fold (rec_fin s5) in ER. inversion ER; subst s. apply scan_configs_durable_fin in ES. destruct ES as ((_ & _ & _ & DL & _) & _).
   unfold rec_committed in E4. rewrite Hrc in E4. inversion E4; subst s4.
   unfold rec_snapshot in E3. cbn [d_snaps set_lastlog set_vol_term fresh_volatile] in E3. rewrite Hsn in E3.
   change (list_snaps []) with (@nil snapshot) in E3. cbn [find] in E3. inversion E3; subst s3.
